@@ -570,7 +570,7 @@ func init() {
 		Shards: shards(14, 16),
 		Meta: func(tier string) rt.Meta {
 			return rt.Meta{Level: "exploration", MinEvals: 5000, MinDistinct: 50,
-				Rule:        "programs of 2 workers x 1 call (all ordered pairs of ~45 primitive mutating calls on 3 overlapping names, from 4 initial trees; quick: a seed-dependent sample), 2 workers x 2 calls and 3 workers x 1-2 calls (random), each worker on its own Sub view of one MemFS or sharing one OrefaFS. Every program is executed under the deterministic lock-hook scheduler: all schedules with <= 2 (quick) / 3 (thorough) preemptions up to a cap, then random schedules. Oracle per execution: the vector of results and the final snapshot must equal those of some sequential order of the same calls - consistent with program order and the observed real-time order - run on a fresh instance of the same implementation (memoised per outcome); the C05 public and internal invariants are evaluated at the end of every schedule; concurrent CreateTemp/MkdirTemp must hand out distinct names. Creations without a write access mode (O_CREATE|O_EXCL alone) are among the calls. Dedicated programs (shared with C07): creations in the root of a Sub view whose directory the parent removes, moves or replaces meanwhile, queries overtaken by a move and a creation, directory moves whose locked directories form a cycle. Fixed three-worker programs for calls made of several walks against links/files/directories that come and go. Free-running: 320 000 (thorough 1.2 M) CreateTemp calls by eight goroutines in one directory - names pairwise distinct, one entry per call, every file still holding its creator's tag. Signature = fs | multiset of call kinds | initial tree | context switches; non-trivial = at least one context switch.",
+				Rule:        "programs of 2 workers x 1 call (all ordered pairs of ~45 primitive mutating calls on 3 overlapping names, from 4 initial trees; quick: a seed-dependent sample), 2 workers x 2 calls and 3 workers x 1-2 calls (random), each worker on its own Sub view of one MemFS or sharing one OrefaFS. Every program is executed under the deterministic lock-hook scheduler: all schedules with <= 2 (quick) / 3 (thorough) preemptions up to a cap, then random schedules. Oracle per execution: the vector of results and the final snapshot must equal those of some sequential order of the same calls - consistent with program order and the observed real-time order - run on a fresh instance of the same implementation (memoised per outcome); the C05 public and internal invariants are evaluated at the end of every schedule; concurrent CreateTemp/MkdirTemp must hand out distinct names. Creations without a write access mode (O_CREATE|O_EXCL alone) are among the calls. Dedicated programs (shared with C07): creations in the root of a Sub view whose directory the parent removes, moves or replaces meanwhile, queries overtaken by a move and a creation, directory moves whose locked directories form a cycle. Fixed three-worker programs for calls made of several walks against links/files/directories that come and go. Free-running (no scheduler, all cores: the only way into a window that holds no lock acquisition and no marked scheduling point): 20 000 (thorough 200 000) trials of the two directory moves whose locked directories form a cycle, started from a barrier through two views - exactly one succeeds, every directory stays reachable, the internal checker is silent; and 320 000 (thorough 1.2 M) CreateTemp calls by eight goroutines in one directory - names pairwise distinct, one entry per call, every file still holding its creator's tag. Signature = fs | multiset of call kinds | initial tree | context switches; non-trivial = at least one context switch.",
 				Assumptions: []string{"composites (WriteFile, OpenFile+Write+Close) are not used as single calls: only primitives", "operands that are sequentially unsafe (root) are excluded", "deadlocks and panics seen here are counted and reported by C07"}}
 		},
 		CrashIsViolation: true,
@@ -626,6 +626,9 @@ func init() {
 				}
 				if fsType == "MemFS" && c.Shard == 1%c.NShards || fsType == "OrefaFS" && c.Shard == 2%c.NShards {
 					c06TempsMany(c, fsType, c.Pick(320000, 1200000))
+				}
+				if fsType == "MemFS" && c.Shard == 3%c.NShards || fsType == "OrefaFS" && c.Shard == 4%c.NShards {
+					c06CrossFree(c, fsType, c.Pick(20000, 200000))
 				}
 			}
 			c.Rep.Count("distinct_interleavings", int64(len(st.inter)))
